@@ -150,7 +150,8 @@ def rand_case(rng, max_dim, empty_axis=False, all_zero=False, writer=None):
         spec['mat'] = [[(rng.choice(EXTRA_VALUES) if v else 0.0) for v in row] for row in spec['mat']]
     spec['omd'], ok = rand_md(rng, r, 'observation')
     spec['smd'], sk = rand_md(rng, c, 'sample')
-    spec['id'] = rng.choice([None, None, 'tid', 'table é 7', '', ' padded id ', '0'])
+    spec['id'] = rng.choice([None, None, None, 'tid', 'table é 7', '', ' padded id ', '0', 'None', 'none', 'null', 'NULL', 'nan',
+                             'No Table ID', 'no table id', ' ', 'False', 'undefined', '-'])
     gm = lambda: rng.choice([None, None, None, {'tree': ['newick', '((a,b),c);']},
                              {'graph': ['text', 'payload ü 样'], 'tree': ['newick', '(x:0.1,y:2);']},
                              {'notes': [' t ', '  two lines\nwith blanks around \n'], 'empty': ['text', '']}])
@@ -162,6 +163,10 @@ def rand_case(rng, max_dim, empty_axis=False, all_zero=False, writer=None):
             'date': rand_date(rng), 'compress': bool(rng.getrandbits(1)),
             'h5_axis': rng.choice(['sample', 'sample', 'observation']),
             'writer': writer or rng.choice(['to_hdf5', 'to_hdf5', 'biom_open', 'save_table'])}
+    if rng.random() < 0.3:
+        case['np_md'] = True          # the caller's numbers are numpy scalars (what pandas / a loaded table hold)
+    if rng.random() < 0.4:
+        case['gen2'] = True           # history: write, load, write the loaded table again, load
     return case
 
 
@@ -172,6 +177,19 @@ POKES = ('poke_zero', 'poke_reverse')
 def _poke_cells(spec):
     """the first zero cell of every row: built with a placeholder value, zeroed afterwards"""
     return [(i, row.index(0.0)) for i, row in enumerate(spec['mat']) if 0.0 in row]
+
+
+def np_md(md):
+    """the same metadata with every number as the numpy scalar of its kind"""
+    def conv(v):
+        if isinstance(v, bool):
+            return np.bool_(v)
+        if isinstance(v, int):
+            return np.int64(v)
+        if isinstance(v, float):
+            return np.float64(v)
+        return v
+    return None if md is None else [None if m is None else {k: conv(v) for k, v in m.items()} for m in md]
 
 
 def build_table(case):
@@ -192,7 +210,10 @@ def build_table(case):
     mat = [list(row) for row in spec['mat']]
     for i, j in cells:
         mat[i][j] = 1.0
-    t = tables.build(dict(spec, mat=mat, layout=lay))
+    bspec = dict(spec, mat=mat, layout=lay)
+    if case.get('np_md'):
+        bspec['omd'], bspec['smd'] = np_md(spec.get('omd')), np_md(spec.get('smd'))
+    t = tables.build(bspec)
     d = t.matrix_data
     if cells:
         for i, j in cells:
@@ -420,11 +441,11 @@ def source_content(case):
 def enc_mdval(v):
     if v is None:
         return [0]
-    if isinstance(v, bool):
-        return [4, int(v)]
-    if isinstance(v, int):
-        return [2, big(v)]
-    if isinstance(v, float):
+    if isinstance(v, (bool, np.bool_)):
+        return [4, int(bool(v))]
+    if isinstance(v, (int, np.integer)):
+        return [2, big(int(v))]
+    if isinstance(v, (float, np.floating)):
         return [3, big(fbits(v))]
     if isinstance(v, str):
         return [1, cps(v)]
@@ -445,7 +466,8 @@ def enc_opt(s):
 
 
 def enc_gmd(g):
-    return [] if not g else [[cps(k), cps(v[0]), cps(v[1])] for k, v in g.items()]
+    # (data type, payload) pairs as the constructor documents them; a bare text (what a loaded table holds) as [key, text]
+    return [] if not g else [[cps(k), cps(v)] if isinstance(v, str) else [cps(k), cps(v[0]), cps(v[1])] for k, v in g.items()]
 
 
 def enc_state(case, st):
@@ -454,6 +476,22 @@ def enc_state(case, st):
             [st['major'], st['minor'], st['indptr'], st['indices'], [big(v) for v in st['data']]],
             enc_md(s.get('omd')), enc_md(s.get('smd')), enc_opt(s.get('type')), enc_opt(s.get('id')),
             enc_gmd(s.get('ogmd')), enc_gmd(s.get('sgmd'))]
+
+
+def spec_of_table(t):
+    """the writer's view of a REAL table (one that was loaded, say): same fields as a case spec, values as the
+    table holds them (numpy scalars, bare-text group metadata)"""
+    def md(ax):
+        m = t.metadata(axis=ax)
+        return None if m is None else [dict(x) if x is not None else {} for x in m]
+    return {'oids': [str(i) for i in t.ids(axis='observation')], 'sids': [str(i) for i in t.ids()],
+            'omd': md('observation'), 'smd': md('sample'), 'type': t.type, 'id': t.table_id,
+            'ogmd': t.group_metadata(axis='observation'), 'sgmd': t.group_metadata()}
+
+
+def enc_table_state(t):
+    """model input for writing the real table t as it stands now"""
+    return enc_state({'spec': spec_of_table(t)}, state_of(t))
 
 
 # ---------------------------------------------------------------- wire: model tree -> observables
@@ -546,8 +584,11 @@ def _is_text(s):
 def _column_ok(name, col):
     if name in RESERVED:
         return all(isinstance(v, (list, tuple)) and len(v) > 0 and all(_is_text(x) and x for x in v) for v in col)
-    kinds = {type(v) for v in col}
-    return (kinds == {str} and all(_is_text(v) for v in col)) or kinds in ({int}, {float}, {bool})
+    def kind(v):
+        return ('b' if isinstance(v, (bool, np.bool_)) else 'i' if isinstance(v, (int, np.integer)) else
+                'f' if isinstance(v, (float, np.floating)) else 's' if isinstance(v, str) else 'other')
+    kinds = {kind(v) for v in col}
+    return (kinds == {'s'} and all(_is_text(v) for v in col)) or kinds in ({'i'}, {'f'}, {'b'})
 
 
 def _md_ok(md, n):
